@@ -1,0 +1,35 @@
+//go:build verif
+
+// Verification hooks (build tag "verif") for the traffic-pattern property, round 3. Add-only: thin
+// exported wrappers around unexported functions; no behaviour change.
+
+package protocol
+
+import (
+	"github.com/enfein/mieru/v3/pkg/appctl/appctlpb"
+)
+
+// VerifExtractLowEntropyConfig evaluates extractLowEntropyConfig.
+func VerifExtractLowEntropyConfig(pattern *appctlpb.TrafficPattern) (mode int, rotation int, enabled bool) {
+	m, r, on := extractLowEntropyConfig(pattern)
+	return int(m), int(r), on
+}
+
+// VerifNewPadding evaluates newPadding. kind 0: ASCII padding with the given minimum run of
+// consecutive ASCII characters; kind 1: entropy padding attached to existingData with the given
+// target probability.
+func VerifNewPadding(maxLen int, kind int, minConsecutiveASCIILen int, existingData []byte, targetProbability float64) []byte {
+	opts := paddingOpts{maxLen: maxLen}
+	if kind == 0 {
+		opts.ascii = &asciiPaddingOpts{minConsecutiveASCIILen: minConsecutiveASCIILen}
+	} else {
+		opts.entropy = &entropyPaddingOpts{existingData: existingData, targetProbability: targetProbability}
+	}
+	return newPadding(opts)
+}
+
+// VerifRecommendedPadding evaluates newPadding(buildRecommendedPaddingOpts(...)), the padding of
+// session segments.
+func VerifRecommendedPadding(maxLen, randomDataLen int, strategySource string) []byte {
+	return newPadding(buildRecommendedPaddingOpts(maxLen, randomDataLen, strategySource))
+}
